@@ -12,6 +12,22 @@ NOT_APPLICABLE = {}
 HOOK_COMMITS = []
 
 CHECKS = {
+    "C15": {
+        "run": "^TestC15_",
+        "rule": ("cases = (operator and configuration {Retry MaxRetries x ResetOnSuccess, Retry(), RepeatWith n, DoWhile/While variant x truth sequence, Catch, OnErrorResumeNextWith, "
+                 "Concat/ConcatWith/ConcatAll with 0..3 further sources}, sequence of attempt outcomes (each a short script ending in completion or error), synchronous or "
+                 "asynchronous attempts, optional cancellation of the subscription context during attempt j). Non-trivial = at least two attempts with different outcomes, or "
+                 "several sources, or a cancellation; distinct by descriptor hash."),
+        "quick": {"rapid": 400, "timeout": 300, "shards": 4},
+        "thorough": {"rapid": 6000, "timeout": 3000, "shards": 16},
+        "assumptions": COMMON_ASSUMPTIONS + ["unbounded re-subscription is cut out-of-band: past 12 subscriptions the instrumented source completes and raises a flag"],
+        "technique": "property-based testing: enumerated outcome sequences against a reference model with subscription counting and a sequencing monitor on the instrumented sources",
+        "level_text": ("Exploration. An instrumented source whose n-th subscription plays the n-th outcome script is put under every re-subscribing operator; for every outcome "
+                       "sequence up to length 3 (quick) / 4 (thorough) and every configuration in the small range, the output trace and the exact number of subscriptions of "
+                       "every source must equal the model's, at most one attempt may be live at any time, and at each new subscription every earlier attempt must have "
+                       "delivered its terminal and had its teardown run. Retry under cancellation: no further attempt and Error(context.Canceled)."),
+        "level_note": "Catch is a listed finding (fallback subscribed from inside the error callback). Retry with a Delay is exercised in the virtual-time check C16.",
+    },
     "C11": {
         "run": "^TestC11_",
         "rule": ("sequential: cases = (form {ShareWithConfig with each of the 8 reset-flag combinations x connector, Share, ShareReplay, ShareReplayWithConfig, connectable with/without "
